@@ -15,11 +15,13 @@ def FlowIn (A : List Nat) : Flow → Prop
   | .ret v => PtrIn A v
   | _ => True
 
-theorem EnvIn.same {t t' : PT} {ρ : Env} (h : EnvIn t.addrs ρ) (hs : SameAddrs t t') : EnvIn t'.addrs ρ :=
-  fun x => PtrIn.mono (fun a ha => (hs a).2 ha) (h x)
+theorem EnvIn.same {st st' : St} {t t' : PT} {ρ : Env} (h : EnvIn t.addrs ρ) (hs : Pres st st' t t') :
+    EnvIn t'.addrs ρ :=
+  fun x => PtrIn.mono (fun a ha => (hs.same a).2 ha) (h x)
 
-theorem PtrIn.same {t t' : PT} {v : Val} (h : PtrIn t.addrs v) (hs : SameAddrs t t') : PtrIn t'.addrs v :=
-  PtrIn.mono (fun a ha => (hs a).2 ha) h
+theorem PtrIn.same {st st' : St} {t t' : PT} {v : Val} (h : PtrIn t.addrs v) (hs : Pres st st' t t') :
+    PtrIn t'.addrs v :=
+  PtrIn.mono (fun a ha => (hs.same a).2 ha) h
 
 theorem ptr_mem_addrs {t : PT} {a : Nat} (h : t.ptr = some a) : a ∈ t.addrs := by
   cases t with
@@ -60,10 +62,10 @@ theorem holds_field_in {st : St} {t : PT} (h : Holds st t) {a : Nat} (ha : a ∈
       · exact h
       · cases h
 
-/-- writing a colour, key or value leaves the pointer fields alone -/
-theorem set_nonptr_same {n m : Node} {f : Fld} {v : Val} (hf : ptrFld f = false) (h : n.set f v = some m) :
-    SamePtrs m n := by
-  cases f <;> cases v <;> simp [Node.set, ptrFld] at h hf <;> subst h <;> exact ⟨rfl, rfl, rfl⟩
+/-- writing a colour or a value leaves the pointer fields and the key alone -/
+theorem set_nonptr_same {n m : Node} {f : Fld} {v : Val} (hf : plainFld f = true) (h : n.set f v = some m) :
+    SamePtrs m n ∧ m.key = n.key := by
+  cases f <;> cases v <;> simp [Node.set, plainFld] at h hf <;> subst h <;> exact ⟨⟨rfl, rfl, rfl⟩, rfl⟩
 
 theorem holds_upd_nonptr {st : St} {t : PT} (h : Holds st t) {a : Nat} {m : Node} (hm : SamePtrs m (st.h a)) :
     Holds { st with h := upd st.h a m } t := by
@@ -73,6 +75,14 @@ theorem holds_upd_nonptr {st : St} {t : PT} (h : Holds st t) {a : Nat} {m : Node
   · next e => subst e; exact hm
   · exact ⟨rfl, rfl, rfl⟩
 
+theorem pres_upd_plain {st : St} {t : PT} (h : Holds st t) {a : Nat} {m : Node}
+    (hm : SamePtrs m (st.h a) ∧ m.key = (st.h a).key) : Pres st { st with h := upd st.h a m } t t := by
+  refine ⟨holds_upd_nonptr h hm.1, rfl, fun b => ?_⟩
+  simp only [upd]
+  split
+  · next e => subst e; exact hm.2
+  · rfl
+
 section
 variable (cmpF : Int → Int → Int) (callH : CallH PName) (hK : ∀ fn, isK fn = true → SpecK callH fn)
 include hK
@@ -80,14 +90,14 @@ include hK
 /-- the statement proved for expressions -/
 def GoodE (e : Expr PName) : Prop :=
   ∀ ρ st v st' t, Holds st t → EnvIn t.addrs ρ → evalE cmpF callH ρ st e = .ok (v, st') →
-    ∃ t', Holds st' t' ∧ SameAddrs t t' ∧ PtrIn t'.addrs v
+    ∃ t', Holds st' t' ∧ Pres st st' t t' ∧ PtrIn t'.addrs v
 
 omit hK in
 /-- two evaluations in sequence -/
 theorem two_good {a b : Expr PName} (ha : GoodE cmpF callH a) (hb : GoodE cmpF callH b)
     {ρ st x st1 y st2 t} (hH : Holds st t) (hE : EnvIn t.addrs ρ)
     (h1 : evalE cmpF callH ρ st a = .ok (x, st1)) (h2 : evalE cmpF callH ρ st1 b = .ok (y, st2)) :
-    ∃ t2, Holds st2 t2 ∧ SameAddrs t t2 ∧ PtrIn t2.addrs x ∧ PtrIn t2.addrs y := by
+    ∃ t2, Holds st2 t2 ∧ Pres st st2 t t2 ∧ PtrIn t2.addrs x ∧ PtrIn t2.addrs y := by
   obtain ⟨t1, H1, S1, P1⟩ := ha ρ st x st1 t hH hE h1
   obtain ⟨t2, H2, S2, P2⟩ := hb ρ st1 y st2 t1 H1 (hE.same S1) h2
   exact ⟨t2, H2, S1.trans S2, P1.same S2, P2⟩
@@ -95,16 +105,16 @@ theorem two_good {a b : Expr PName} (ha : GoodE cmpF callH a) (hb : GoodE cmpF c
 theorem evalE_safe : ∀ e : Expr PName, safeE e = true → GoodE cmpF callH e := by
   intro e
   induction e with
-  | nil => intro _ ρ st v st' t hH _ h; simp [evalE] at h; obtain ⟨rfl, rfl⟩ := h; exact ⟨t, hH, .refl t, trivial⟩
-  | int i => intro _ ρ st v st' t hH _ h; simp [evalE] at h; obtain ⟨rfl, rfl⟩ := h; exact ⟨t, hH, .refl t, trivial⟩
-  | bool b => intro _ ρ st v st' t hH _ h; simp [evalE] at h; obtain ⟨rfl, rfl⟩ := h; exact ⟨t, hH, .refl t, trivial⟩
-  | err c => intro _ ρ st v st' t hH _ h; simp [evalE] at h; obtain ⟨rfl, rfl⟩ := h; exact ⟨t, hH, .refl t, trivial⟩
-  | unit => intro _ ρ st v st' t hH _ h; simp [evalE] at h; obtain ⟨rfl, rfl⟩ := h; exact ⟨t, hH, .refl t, trivial⟩
-  | var x => intro _ ρ st v st' t hH hE h; simp [evalE] at h; obtain ⟨rfl, rfl⟩ := h; exact ⟨t, hH, .refl t, hE x⟩
+  | nil => intro _ ρ st v st' t hH _ h; simp [evalE] at h; obtain ⟨rfl, rfl⟩ := h; exact ⟨t, hH, Pres.refl hH, trivial⟩
+  | int i => intro _ ρ st v st' t hH _ h; simp [evalE] at h; obtain ⟨rfl, rfl⟩ := h; exact ⟨t, hH, Pres.refl hH, trivial⟩
+  | bool b => intro _ ρ st v st' t hH _ h; simp [evalE] at h; obtain ⟨rfl, rfl⟩ := h; exact ⟨t, hH, Pres.refl hH, trivial⟩
+  | err c => intro _ ρ st v st' t hH _ h; simp [evalE] at h; obtain ⟨rfl, rfl⟩ := h; exact ⟨t, hH, Pres.refl hH, trivial⟩
+  | unit => intro _ ρ st v st' t hH _ h; simp [evalE] at h; obtain ⟨rfl, rfl⟩ := h; exact ⟨t, hH, Pres.refl hH, trivial⟩
+  | var x => intro _ ρ st v st' t hH hE h; simp [evalE] at h; obtain ⟨rfl, rfl⟩ := h; exact ⟨t, hH, Pres.refl hH, hE x⟩
   | root =>
     intro _ ρ st v st' t hH _ h; simp [evalE] at h; obtain ⟨rfl, rfl⟩ := h
-    exact ⟨t, hH, .refl t, holds_root_in hH⟩
-  | size => intro _ ρ st v st' t hH _ h; simp [evalE] at h; obtain ⟨rfl, rfl⟩ := h; exact ⟨t, hH, .refl t, trivial⟩
+    exact ⟨t, hH, Pres.refl hH, holds_root_in hH⟩
+  | size => intro _ ρ st v st' t hH _ h; simp [evalE] at h; obtain ⟨rfl, rfl⟩ := h; exact ⟨t, hH, Pres.refl hH, trivial⟩
   | field e f ih =>
     intro hs ρ st v st' t hH hE h
     simp only [safeE] at hs
@@ -382,7 +392,7 @@ theorem evalE_safe : ∀ e : Expr PName, safeE e = true → GoodE cmpF callH e :
 /-- the statement proved for statements -/
 def GoodS (lf : Nat) (s : Stmt PName) : Prop :=
   ∀ ρ st fl ρ' st' t, Holds st t → EnvIn t.addrs ρ → exec cmpF callH lf ρ st s = .ok (fl, ρ', st') →
-    ∃ t', Holds st' t' ∧ SameAddrs t t' ∧ EnvIn t'.addrs ρ' ∧ FlowIn t'.addrs fl
+    ∃ t', Holds st' t' ∧ Pres st st' t t' ∧ EnvIn t'.addrs ρ' ∧ FlowIn t'.addrs fl
 
 omit hK in
 theorem envIn_set {A : List Nat} {ρ : Env} {x : Nat} {v : Val} (h : EnvIn A ρ) (hv : PtrIn A v) :
@@ -395,11 +405,11 @@ omit hK in
 /-- loops: by induction on the iteration budget -/
 theorem iterate_good {cond : Env → St → Res (Val × St)} {body : Env → St → Res (Flow × Env × St)}
     (hc : ∀ ρ st v st' t, Holds st t → EnvIn t.addrs ρ → cond ρ st = .ok (v, st') →
-      ∃ t', Holds st' t' ∧ SameAddrs t t' ∧ PtrIn t'.addrs v)
+      ∃ t', Holds st' t' ∧ Pres st st' t t' ∧ PtrIn t'.addrs v)
     (hb : ∀ ρ st fl ρ' st' t, Holds st t → EnvIn t.addrs ρ → body ρ st = .ok (fl, ρ', st') →
-      ∃ t', Holds st' t' ∧ SameAddrs t t' ∧ EnvIn t'.addrs ρ' ∧ FlowIn t'.addrs fl) :
+      ∃ t', Holds st' t' ∧ Pres st st' t t' ∧ EnvIn t'.addrs ρ' ∧ FlowIn t'.addrs fl) :
     ∀ n ρ st fl ρ' st' t, Holds st t → EnvIn t.addrs ρ → iterate cond body n ρ st = .ok (fl, ρ', st') →
-      ∃ t', Holds st' t' ∧ SameAddrs t t' ∧ EnvIn t'.addrs ρ' ∧ FlowIn t'.addrs fl := by
+      ∃ t', Holds st' t' ∧ Pres st st' t t' ∧ EnvIn t'.addrs ρ' ∧ FlowIn t'.addrs fl := by
   intro n
   induction n with
   | zero => intro ρ st fl ρ' st' t _ _ h; simp [iterate] at h
@@ -448,13 +458,13 @@ theorem exec_safe (lf : Nat) : ∀ s : Stmt PName, safeS s = true → GoodS cmpF
   induction s with
   | skip =>
     intro _ ρ st fl ρ' st' t hH hE h; simp [exec] at h; obtain ⟨rfl, rfl, rfl⟩ := h
-    exact ⟨t, hH, .refl t, hE, trivial⟩
+    exact ⟨t, hH, Pres.refl hH, hE, trivial⟩
   | continue_ =>
     intro _ ρ st fl ρ' st' t hH hE h; simp [exec] at h; obtain ⟨rfl, rfl, rfl⟩ := h
-    exact ⟨t, hH, .refl t, hE, trivial⟩
+    exact ⟨t, hH, Pres.refl hH, hE, trivial⟩
   | break_ =>
     intro _ ρ st fl ρ' st' t hH hE h; simp [exec] at h; obtain ⟨rfl, rfl, rfl⟩ := h
-    exact ⟨t, hH, .refl t, hE, trivial⟩
+    exact ⟨t, hH, Pres.refl hH, hE, trivial⟩
   | seq a b iha ihb =>
     intro hs ρ st fl ρ' st' t hH hE h
     simp only [safeS, Bool.and_eq_true] at hs
@@ -487,7 +497,7 @@ theorem exec_safe (lf : Nat) : ∀ s : Stmt PName, safeS s = true → GoodS cmpF
       exact ⟨t1, H1, S1, envIn_set (hE.same S1) P1, trivial⟩
   | setField p f e =>
     intro hs ρ st fl ρ' st' t hH hE h
-    simp only [safeS, Bool.and_eq_true, Bool.not_eq_true'] at hs
+    simp only [safeS, Bool.and_eq_true] at hs
     simp only [exec] at h
     cases h1 : evalE cmpF callH ρ st p with
     | error x => simp [h1] at h
@@ -512,7 +522,8 @@ theorem exec_safe (lf : Nat) : ∀ s : Stmt PName, safeS s = true → GoodS cmpF
             | none => simp [h3] at h
             | some n =>
               simp [h3] at h; obtain ⟨rfl, rfl, rfl⟩ := h
-              exact ⟨t2, holds_upd_nonptr H2 (set_nonptr_same hs.1.1 h3), S2, hE.same S2, trivial⟩
+              have hp := pres_upd_plain H2 (set_nonptr_same hs.1.1 h3)
+              exact ⟨t2, hp.holds, S2.trans hp, hE.same S2, trivial⟩
         | _ => simp at h
   | setRoot e => intro hs; simp [safeS] at hs
   | setSize e =>
@@ -525,9 +536,13 @@ theorem exec_safe (lf : Nat) : ∀ s : Stmt PName, safeS s = true → GoodS cmpF
       obtain ⟨v, st1⟩ := r1
       rw [h1] at h
       obtain ⟨t1, H1, S1, _⟩ := evalE_safe cmpF callH hK e hs ρ st v st1 t hH hE h1
-      cases v <;> simp at h
-      obtain ⟨rfl, rfl, rfl⟩ := h
-      exact ⟨t1, ⟨H1.1, H1.2.1, H1.2.2⟩, S1, hE.same S1, trivial⟩
+      cases v with
+      | int i =>
+        simp at h
+        obtain ⟨rfl, rfl, rfl⟩ := h
+        have hp : Pres st1 { st1 with size := i } t1 t1 := ⟨⟨H1.1, H1.2.1, H1.2.2⟩, rfl, fun _ => rfl⟩
+        exact ⟨t1, hp.holds, S1.trans hp, hE.same S1, trivial⟩
+      | _ => simp at h
   | ite c a b iha ihb =>
     intro hs ρ st fl ρ' st' t hH hE h
     simp only [safeS, Bool.and_eq_true] at hs
